@@ -146,9 +146,33 @@ def battery():
             out.append("ok")
         except Exception as e:  # noqa
             out.append(type(e).__name__)
+    # a sibling produced by the module-level factory `_factory_head` (the same `def`, executed again): whatever
+    # siblings exist already, this one goes by its own default
+    h8 = _factory_head(8)
+    for size in (8, 4):
+        try:
+            h8(A(size))
+            out.append("ok")
+        except Exception as e:  # noqa
+            out.append(type(e).__name__)
     out.append(real.raw_transcript())
     out.append((jaxtyping.config.jaxtyping_disable, jaxtyping.config.jaxtyping_remove_typechecker_stack))
     return out
+
+
+_FACTORY = {}
+
+
+def _factory_head(k):
+    import typeguard
+
+    import jaxtyping
+
+    if not _FACTORY:
+        ns = {"jaxtyped": jaxtyping.jaxtyped, "tc": typeguard.typechecked, "X": jaxtyping.Float[N, "{d}"]}
+        real.exec_src("def make(k):\n    @jaxtyped(typechecker=tc)\n    def head(x: X, d=k):\n        return d\n    return head\n", ns)
+        _FACTORY["make"] = ns["make"]
+    return _FACTORY["make"](k)
 
 
 def quiescent():
@@ -226,6 +250,8 @@ def catalogue(sh):
     ops["q_tree_toplevel"] = lambda: (isinstance([A(2), A(3)], sh.q), isinstance({"a": A(2), "b": (A(4),)}, sh.q))
     ops["nested_pytree_toplevel"] = lambda: real.check([[A(2), A(2)], A(2)], PyTree[PyTree[Shaped[N, "?k"]], "T"])
     ops["fail_tree_2nd_leaf_toplevel"] = lambda: isinstance([A(2), (A(3, dt="int32"),)], sh.tree)
+    ops["factory_sibling_4"] = lambda: _factory_head(4)(A(4))
+    ops["factory_sibling_2_bad"] = lambda: _factory_head(2)(A(3))
     ops["raise_tree_unbound_struct"] = lambda: ctx(lambda: real.check([A(2)], PyTree[Float[N, "a"], "S T"]))
     ops["nested_pytree"] = lambda: ctx(lambda: real.check([[A(2), A(2)], A(2)], PyTree[PyTree[Shaped[N, "?k"]], "T"]))
     ops["two_structured"] = lambda: ctx(lambda: real.check([[A(2)]], PyTree[PyTree[Shaped[N, "?k"], "S"], "T"]))
